@@ -107,7 +107,7 @@ def _run_job(job):
         if o.status != 'violated':
             continue
         for k in known:
-            if k['contract'] == o.contract and k['clause'] == o.name and (k.get('case') in (None, o.case)):
+            if k.get('contract') == o.contract and k.get('clause') == o.name and (k.get('case') in (None, o.case)):
                 r = E.known_split(o, k)
                 if r is None:
                     continue
@@ -210,6 +210,14 @@ def main():
         res = BD.run(b, prop, tier, seed, repo_path())
         bounded.append(res['summary'])
         bviol.extend(res['violations'])
+        if res.get('error'):
+            errors.append(res['error'])
+        listed = {k['id']: k for k in load_known() if k.get('property') == prop and not k.get('fixed') and k.get('bounded')}
+        for kf in res.get('known', []):
+            if kf['id'] in listed:
+                known_lines.append(f"KNOWN-FINDING: property={prop} {kf['id']} {listed[kf['id']]['what']}")
+            else:
+                bviol.append({'replay': os.path.relpath(os.path.join(VERIF, 'replays', f'{prop}-bounded-{b}.json'), VERIF), 'what': kf['what']})
     # ---- verdicts
     violations = [o for o in obls if o.status == 'violated']
     undecided = [o for o in obls if o.status == 'undecided']
